@@ -358,6 +358,26 @@ def run(pid, tier):
                 for sig, what, extra in core.oracle("C14", ops, root, []):
                     ck.violation(sig, what, {"stream": "G", "ops": ops, "root": root})
         fences_env.run_with_big_stack(body, reclimit=2600)
+        # graphs returned by the five parsers: closure / linkage / ids on the implementation, and the model's
+        # well-formedness checker (proved sufficient) on the dumped node table
+        import frontends, regexes as RX
+        fe = {}
+
+        def front():
+            lines, meta = [], []
+            for name, what, root in frontends.graphs(rng, 150 if tier == "quick" else 3000):
+                fe[name] = fe.get(name, 0) + 1
+                ck.count(name + what, True)
+                for sig, w in frontends.closure_problems(name, root):
+                    ck.violation(sig + ":" + name, "%s graph for %s: %s" % (name, what[:200], w), {"stream": "front-ends", "front_end": name, "input": what})
+                lines.append(RX.certify_line(root))
+                meta.append((name, what))
+            for (name, what), m in zip(meta, run_driver(lines)):
+                if "wf=1" not in m or "cons=1" not in m:
+                    ck.violation("not-well-formed:" + name, "%s graph for %s is not well-formed by the model's checker (%s)" % (name, what[:200], m),
+                                 {"stream": "front-ends", "front_end": name, "input": what})
+        fences_env.run_with_big_stack(front, reclimit=2600)
+        stats.update({"front_end_" + k: v for k, v in fe.items()})
         ck.sample({"ops": cases[0][0], "root": 0, "extra": cases[0][2]})
         ck.cov["rule"] = ("hand-built graphs with Reference nodes: 1-3 sub-graphs (root + definitions passed to resolve), ids from a small pool "
                           "(also '' and None), references with chains and recursion, rare unknown names and duplicate ids; plus plain API programs "
